@@ -89,7 +89,8 @@ func (b *fencedCodeBlockParser) Continue(node ast.Node, reader text.Reader, pc C
 	}
 	pos, padding := util.IndentPositionPadding(line, reader.LineOffset(), segment.Padding, fdata.indent)
 	if pos < 0 {
-		pos = util.FirstNonSpacePosition(line)
+		// line begins with segment.Padding virtual spaces that are not in the source
+		pos = util.FirstNonSpacePosition(line) - segment.Padding
 		if pos < 0 {
 			pos = 0
 		}
